@@ -938,10 +938,15 @@ class UTMITranslator(Elaboratable):
         dir_based_start = dir_rising_edge & self.ulpi.nxt.i
 
 
-        with m.If(~self.ulpi.dir.i | rxevent_decoder.rx_stop):
-            # TODO: this should probably also trigger if RxError
+        # An RxCmd carries the current RxActive level; take it directly from the bus, so that it
+        # is tracked relative to our own state (which DIR falling clears) and without extra delay.
+        rxcmd_present = past_dir & self.ulpi.dir.i & ~self.ulpi.nxt.i & ~register_window.read_busy
+        with m.If(~self.ulpi.dir.i):
             m.d.usb += self.rx_active.eq(0)
-        with m.Elif(dir_based_start | rxevent_decoder.rx_start):
+        with m.Elif(rxcmd_present):
+            # TODO: this should probably also trigger if RxError
+            m.d.usb += self.rx_active.eq(self.ulpi.data.i[4])
+        with m.Elif(dir_based_start):
             m.d.usb += self.rx_active.eq(1)
 
 
